@@ -230,8 +230,11 @@ class ZMQEventLoop(EventLoop):
         return True
 
     def _entering_idle(self) -> None:
-        for callback in list(self._idle_callbacks.values()):
-            callback()
+        for handle in list(self._idle_callbacks):
+            # an earlier callback of this pass may have removed this one
+            callback = self._idle_callbacks.get(handle)
+            if callback is not None:
+                callback()
 
     def run(self) -> None:
         """
